@@ -133,6 +133,35 @@ func c12ExecVia(c *Ctx, cs c12Case) (outcome string) {
 	if err != nil {
 		return "oracle-rejects-ref"
 	}
+	if cs.Elem == "own" {
+		// a fragment-only reference inside the document reached through Via designates that document, not the
+		// (in-memory) root that imported it, even when both hold a definition of that name
+		if normURL(firstDoc) == normURL(cs.Base) {
+			return "via-is-the-root"
+		}
+		var loads []string
+		loader := func(p string) (json.RawMessage, error) {
+			loads = append(loads, p)
+			if normURL(p) == normURL(firstDoc) {
+				return json.RawMessage(`{"definitions":{"x":{"$ref":"` + cs.Ref + `"},"y":{"title":"in-the-imported-document"}},"title":"first"}`), nil
+			}
+			return json.RawMessage(`{"definitions":{"x":{"title":"elsewhere"},"y":{"title":"elsewhere"}}}`), nil
+		}
+		b, _ := json.Marshal(map[string]interface{}{"swagger": "2.0", "info": map[string]string{"title": "t", "version": "1"}, "paths": map[string]interface{}{},
+			"definitions": map[string]interface{}{"e": map[string]string{"$ref": cs.Via + "#/definitions/x"}, "y": map[string]string{"title": "in-the-root"}}})
+		var sw spec.Swagger
+		if err := json.Unmarshal(b, &sw); err != nil {
+			return "ref-rejected"
+		}
+		if err := spec.ExpandSpec(&sw, &spec.ExpandOptions{RelativeBase: cs.Base, PathLoader: loader}); err != nil {
+			viol("own-document-reference-fails", "", err.Error(), "")
+			return
+		}
+		if got := sw.Definitions["e"].Title; got != "in-the-imported-document" {
+			viol("own-document-reference-read-elsewhere", "in-the-imported-document", got, fmt.Sprintf("root %q imports %q; there %q must designate that document (requested: %v)", cs.Base, firstDoc, cs.Ref, loads))
+		}
+		return
+	}
 	wantDoc, _, err := ResolveURL(firstDoc, cs.Ref)
 	if err != nil {
 		return "oracle-rejects-ref"
@@ -272,6 +301,29 @@ func c12Run(c *Ctx) {
 							c.Sample(cs)
 						}
 					}
+				}
+			}
+		}
+	}
+	// fragment-only references inside an imported document (other directory, other site, same path on another
+	// site, same host and path on another port)
+	if c.Shard == 0 {
+		for _, b := range bases {
+			vs := append([]string{}, vias...)
+			if u, err := url.Parse(b); err == nil && u.Host != "" {
+				pu := *u
+				pu.Host = u.Hostname() + ":8099"
+				vs = append(vs, pu.String())
+				ou := *u
+				ou.Host = "other.example"
+				vs = append(vs, ou.String())
+			}
+			for _, via := range vs {
+				for _, r := range []string{"#/definitions/y"} {
+					o := c12Exec(c, c12Case{Base: b, Ref: r, Via: via, Elem: "own"})
+					c.Res.Evaluations++
+					c.Res.Transitions += 2
+					c.Outcome("own-document-two-hops:" + o)
 				}
 			}
 		}
